@@ -1,6 +1,8 @@
 package main
 
 import (
+	"fmt"
+	"strings"
 	"github.com/mmcloughlin/avo/attr"
 	"github.com/mmcloughlin/avo/ir"
 	"github.com/mmcloughlin/avo/operand"
@@ -332,5 +334,165 @@ func indexedLocalProgs(r *RNG, n int) []*Prog {
 		addI(p, must(x86.RET()), nil)
 		ps = append(ps, p)
 	}
+	return ps
+}
+
+// largeProgs: the same shapes as the small corpus, at a scale where small-integer counters, caches with a
+// fixed number of slots, chunked loops and "only for big inputs" fast paths come into play: hundreds of
+// instructions, of virtual registers, of interference edges, dozens of labels and of wide vector values.
+func largeProgs(kinds ...string) []*Prog {
+	var ps []*Prog
+	want := func(desc string) bool {
+		if len(kinds) == 0 {
+			return true
+		}
+		for _, k := range kinds {
+			if strings.Contains(desc, k) {
+				return true
+			}
+		}
+		return false
+	}
+	mk := func(desc string, attrs attr.Attribute, f func(p *Prog, c *reg.Collection)) {
+		if !want(desc) {
+			return
+		}
+		p := &Prog{Desc: desc, Tags: map[string]bool{"large": true}, Attrs: attrs}
+		f(p, reg.NewCollection())
+		ps = append(ps, p)
+	}
+	// sum of n loaded words, two fresh registers per term (n=400: 800 instructions, > 1024 interference records)
+	for _, n := range []int{400} {
+		n := n
+		mk(fmt.Sprintf("sum of %d loaded words, a fresh register per term", n), attr.NOSPLIT, func(p *Prog, c *reg.Collection) {
+			ptr, acc := c.GP64(), c.GP64()
+			addI(p, must(x86.MOVQ(operand.U32(4096), ptr)), nil)
+			addI(p, must(x86.XORQ(acc, acc)), nil)
+			for j := 0; j < n; j++ {
+				t := c.GP64()
+				addI(p, must(x86.MOVQ(operand.Mem{Base: ptr, Disp: 8 * j}, t)), nil)
+				addI(p, must(x86.ADDQ(t, acc)), nil)
+			}
+			addI(p, must(x86.MOVQ(acc, reg.RAX)), nil)
+			addI(p, must(x86.RET()), nil)
+		})
+	}
+	// a loop whose body is longer than 256 / 512 instructions, two values live around the back edge
+	for _, n := range []int{255, 300, 600} {
+		n := n
+		mk(fmt.Sprintf("loop with a body of %d instructions", n), attr.NOSPLIT, func(p *Prog, c *reg.Collection) {
+			x, y := c.GP64(), c.GP64()
+			addI(p, must(x86.MOVQ(operand.U32(40), x)), nil)
+			addI(p, must(x86.MOVQ(operand.U32(2), y)), nil)
+			p.Nodes = append(p.Nodes, ir.Label("loop"))
+			for j := 0; j < n; j++ {
+				addI(p, must(x86.ADDQ(operand.U8(1), reg.RCX)), nil)
+			}
+			addI(p, must(x86.JNE(operand.LabelRef("loop"))), nil)
+			addI(p, must(x86.ADDQ(y, x)), nil)
+			addI(p, must(x86.MOVQ(x, reg.RAX)), nil)
+			addI(p, must(x86.RET()), nil)
+		})
+	}
+	// more than 64 distinct 32-bit destinations, each combined later (the 32-bit writes are widened to 64 bits)
+	mk("80 values written through 32-bit views", attr.NOSPLIT, func(p *Prog, c *reg.Collection) {
+		acc := c.GP64()
+		addI(p, must(x86.XORQ(acc, acc)), nil)
+		var vs []reg.GPVirtual
+		for j := 0; j < 80; j++ {
+			v := c.GP64()
+			vs = append(vs, v)
+			addI(p, must(x86.MOVL(operand.U32(uint32(j)), v.As32())), nil)
+			addI(p, must(x86.ADDL(operand.U8(1), v.As32())), nil)
+			addI(p, must(x86.ADDQ(v, acc)), nil)
+		}
+		for j := 0; j < 12; j++ { // the first registers again, after all the others have been seen
+			addI(p, must(x86.MOVL(operand.U32(uint32(100+j)), vs[j].As32())), nil)
+			addI(p, must(x86.ADDQ(vs[j], acc)), nil)
+		}
+		addI(p, must(x86.MOVQ(acc, reg.RAX)), nil)
+		addI(p, must(x86.RET()), nil)
+	})
+	// n wide vector values live at once: 24 and 32 fit the register file, 33 do not
+	for _, n := range []int{24, 32, 33} {
+		n := n
+		mk(fmt.Sprintf("%d ZMM values live at once", n), attr.NOSPLIT, func(p *Prog, c *reg.Collection) {
+			var vs []reg.VecVirtual
+			for j := 0; j < n; j++ {
+				v := c.ZMM()
+				vs = append(vs, v)
+				addI(p, must(x86.VPXORQ(v, v, v)), nil)
+			}
+			for j := 1; j < n; j++ {
+				addI(p, must(x86.VPADDQ(vs[j], vs[0], vs[0])), nil)
+			}
+			addI(p, must(x86.VMOVDQU64(vs[0], operand.Mem{Base: reg.RAX})), nil)
+			addI(p, must(x86.RET()), nil)
+		})
+	}
+	// 150-term inner product with the implicit registers of MULQ: more than 64 values wait for a register at once
+	mk("150-term inner product with MULQ", attr.NOSPLIT, func(p *Prog, c *reg.Collection) {
+		px, py, lo, hi := c.GP64(), c.GP64(), c.GP64(), c.GP64()
+		addI(p, must(x86.MOVQ(operand.U32(4096), px)), nil)
+		addI(p, must(x86.MOVQ(operand.U32(8192), py)), nil)
+		addI(p, must(x86.XORQ(lo, lo)), nil)
+		addI(p, must(x86.XORQ(hi, hi)), nil)
+		for j := 0; j < 150; j++ {
+			t := c.GP64()
+			addI(p, must(x86.MOVQ(operand.Mem{Base: px, Disp: 8 * j}, reg.RAX)), nil)
+			addI(p, must(x86.MOVQ(operand.Mem{Base: py, Disp: 8 * j}, t)), nil)
+			addI(p, must(x86.MULQ(t)), nil)
+			addI(p, must(x86.ADDQ(reg.RAX, lo)), nil)
+			addI(p, must(x86.ADCQ(reg.RDX, hi)), nil)
+		}
+		addI(p, must(x86.MOVQ(lo, reg.RAX)), nil)
+		addI(p, must(x86.MOVQ(hi, reg.RDX)), nil)
+		addI(p, must(x86.RET()), nil)
+	})
+	// dozens of unreferenced labels and of jumps to the following label between the instructions
+	for _, n := range []int{33, 100} {
+		n := n
+		mk(fmt.Sprintf("%d unreferenced labels and %d jumps to the following label", n, n), attr.NOSPLIT, func(p *Prog, c *reg.Collection) {
+			acc := c.GP64()
+			addI(p, must(x86.XORQ(acc, acc)), nil)
+			for j := 0; j < n; j++ {
+				p.Nodes = append(p.Nodes, ir.Label(fmt.Sprintf("dangling%d", j)))
+				addI(p, must(x86.ADDQ(operand.U8(uint8(1+j%100)), acc)), nil)
+				addI(p, must(x86.JMP(operand.LabelRef(fmt.Sprintf("next%d", j)))), nil)
+				p.Nodes = append(p.Nodes, ir.Label(fmt.Sprintf("next%d", j)))
+			}
+			addI(p, must(x86.MOVQ(acc, reg.RAX)), nil)
+			addI(p, must(x86.RET()), nil)
+		})
+	}
+	// a long function that writes the base pointer: named at the very end, and by pressure
+	mk("300 instructions, then a write to the base pointer", attr.NOSPLIT, func(p *Prog, c *reg.Collection) {
+		acc := c.GP64()
+		addI(p, must(x86.XORQ(acc, acc)), nil)
+		for j := 0; j < 300; j++ {
+			addI(p, must(x86.ADDQ(operand.U8(1), acc)), nil)
+		}
+		addI(p, must(x86.MOVQ(acc, reg.RBP)), nil)
+		addI(p, must(x86.MOVQ(reg.RBP, reg.RAX)), nil)
+		addI(p, must(x86.RET()), nil)
+		p.Tags["explicit-bp"] = true
+	})
+	mk("fifteen live values inside a function of 300 instructions (the allocator has to use the base pointer)", attr.NOSPLIT, func(p *Prog, c *reg.Collection) {
+		var vs []reg.GPVirtual
+		for j := 0; j < 15; j++ {
+			v := c.GP64()
+			vs = append(vs, v)
+			addI(p, must(x86.MOVQ(operand.U32(uint32(j)), v)), nil)
+		}
+		for j := 0; j < 270; j++ {
+			addI(p, must(x86.ADDQ(vs[(j+1)%15], vs[j%15])), nil)
+		}
+		for j := 1; j < 15; j++ {
+			addI(p, must(x86.ADDQ(vs[j], vs[0])), nil)
+		}
+		addI(p, must(x86.MOVQ(vs[0], operand.Mem{Base: reg.RSP, Disp: 8})), nil)
+		addI(p, must(x86.RET()), nil)
+		p.Tags["pressure15"] = true
+	})
 	return ps
 }
